@@ -1477,6 +1477,46 @@ int32 matrixUpdateSession(ssl_t *ssl)
     NOTE: If this list can get very large the faster DLList API should be
     used instead of this single linked list.
  */
+/* Access to the session ticket key list from other files: the list can be
+   changed (matrixSslLoadSessionTicketKeys, matrixSslDeleteSessionTicketKey)
+   while handshakes of other sessions sharing the keys are in progress. */
+psBool_t matrixHaveSessionTicketKeys(sslKeys_t *keys)
+{
+    psBool_t have;
+
+    if (keys == NULL)
+    {
+        return PS_FALSE;
+    }
+    psLockMutex(&g_sessTicketLock);
+    have = (keys->sessTickets != NULL) ? PS_TRUE : PS_FALSE;
+    psUnlockMutex(&g_sessTicketLock);
+    return have;
+}
+
+/* Copy of the key to seal new tickets with (name == NULL: the first of the
+   list), or of the key with the given name.  PS_FAILURE if there is none. */
+int32 matrixCopySessionTicketKey(sslKeys_t *keys, const unsigned char *name,
+    psSessionTicketKeys_t *out)
+{
+    psSessionTicketKeys_t *lkey;
+    int32 rc = PS_FAILURE;
+
+    psLockMutex(&g_sessTicketLock);
+    for (lkey = keys ? keys->sessTickets : NULL; lkey; lkey = lkey->next)
+    {
+        if (name == NULL || Memcmp(lkey->name, name, 16) == 0)
+        {
+            *out = *lkey;
+            out->next = NULL;
+            rc = PS_SUCCESS;
+            break;
+        }
+    }
+    psUnlockMutex(&g_sessTicketLock);
+    return rc;
+}
+
 int32 matrixSslDeleteSessionTicketKey(sslKeys_t *keys, unsigned char name[16])
 {
     psSessionTicketKeys_t *lkey, *prev;
